@@ -6,6 +6,7 @@ from props.common import (
     callee_method_name,
     calls_to,
     crate_stats,
+    field_path,
     gates,
     in_cycle,
     kind_consistent,
@@ -108,7 +109,7 @@ def run(ctx):
         check_key_constructions(chk, "C06.e", m)
         from props.common import import_rules
 
-        import_rules(ctx, "C03", {"C03.a"}, "C06.f", "imported from C03 (lookups compare keys with == and find them by hash): for every label-count class Key's hasher, == and cmp use the same canonical form — otherwise two equal keys hash differently and get two storages", floor=5)
+        import_rules(ctx, "C03", {"C03.a", "C03.c"}, "C06.f", "imported from C03 (lookups compare keys with == and find them by hash): for every label-count class Key's hasher, == and cmp use the same canonical form, and the lazily memoised hash is published (hash word before the `hashed` flag, flag read before the word) — otherwise two equal keys hash differently and get two storages", floor=7)
         hf = [x for x in u.fns if x.name == "hashable" and x.j.get("impl_self") == "metrics::key::Key"]
         if hf:
             r = strip_sym(Sym(hf[0]).local(0))
@@ -297,22 +298,25 @@ def run(ctx):
     # clear
     clr = one_method(chk, "C06.d", u, REG, "clear")
     if clr:
+        from props.common import iteration_context
+
         cleared = set()
-        sy = Sym(clr)
-        its = [c for c in clr.body.calls() if c.is_("IntoIterator::into_iter")]
-        clears = [c for c in clr.body.calls() if c.is_("HashMap<K, V, S, A>::clear", "clear") and "hashbrown" in (c.resolved or "")]
-        for c in its:
-            s = strip_sym(arg_syms(c)[0])
-            if s[0] == "field" and is_param(s[1], 0):
-                cleared.add(s[2])
-        ok = cleared == {"counters", "gauges", "histograms"} and len(clears) == 3 and all(in_cycle(clr.body, c.bb) for c in clears)
-        # every loop iteration clears: the clear call is reached on every path through the loop body (no skip edge)
+        clears = [c for c in nonforeign_calls(clr) if c.is_("HashMap<K, V, S, A>::clear", "clear") and "hashbrown" in (c.resolved or "")]
         skip = False
         for c in clears:
-            g = gates(clr.body, c.bb)
-            for d, lab in g:
+            # which collection of shards is this clear applied to, once per shard (for loop or for_each)?
+            src, why = iteration_context(c)
+            if src is None:
+                skip = True
+                continue
+            fp = field_path(src) if src is not None else None
+            if fp and fp[0] == 0 and len(fp[1]) == 1:
+                cleared.add(fp[1][0])
+            # the shard that is cleared is reached through a lock whose poisoning is recovered from, not skipped
+            for d, lab in gates(c.body, c.bb):
                 if lab in ("Ok", "Err", True, False) and not sym_is_call(d, "Iterator::next"):
                     skip = True
+        ok = cleared == {"counters", "gauges", "histograms"} and len(clears) == 3
         chk.ob("C06.d", clr.path, ok and not skip, "clear() iterates counters, gauges and histograms and clears every shard unconditionally" if ok and not skip else f"clear() does not unconditionally clear every shard of all three kinds (fields {sorted(cleared)}, {len(clears)} clear calls, conditional={skip})", clr.loc())
     # delete returns true exactly on the Occupied edge after removal
     for k, f in fam["delete"].items():
